@@ -5,6 +5,8 @@ cd "$(dirname "$0")/.." || exit 2
 B=${1:-15}; fail=0
 for d in seeded/*/; do
   id=$(basename "$d"); prop=${id%%-*}
+  # a change may be a violation of another property than the one it was written for (meta.json says so)
+  cp=$(python3 -c "import json,sys; print(json.load(open('$d/meta.json')).get('check_property',''))" 2>/dev/null); [ -n "$cp" ] && prop=$cp
   r=$(selftest/run_mutant.sh "$prop" "$d/patch.diff" "$B" 2>&1 | grep '^RESULT')
   echo "$id: $(echo "$r" | sed 's/^RESULT [^ ]* [^ ]* //' | cut -c1-200)"
   echo "$r" | grep -q CAUGHT || fail=1
